@@ -207,6 +207,7 @@ class Unit:
         self.vacuity = False
         self.twins = []
         self.lemmas = {}
+        self.extra_consts = []  # names of source-level `const` items to import mechanically (a change introduced them)
         self.stub_out = set()   # selectors whose bodies are replaced by `unimplemented!()` (contract kept): per-function isolation
         self.stubbed = []       # (selector, reason)
 
@@ -242,6 +243,8 @@ class Unit:
             ln = lines[i]
             s = ln.strip()
             if not s.startswith('//@'):
+                if s == '} // verus!' and self.extra_consts:
+                    self.emit_extra_consts()
                 if self.vacuity and re.match(r'\s*(pub\s+)?proof fn lemma_', ln):
                     self.emit('#[verifier::external_body]\n')
                 self.emit(ln + '\n')
@@ -408,6 +411,20 @@ class Unit:
             return nm + '()'
         text = re.sub(r'@SITEK:(\w+)@', number_k, text)
         return text
+
+    def emit_extra_consts(self):
+        """`const NAME: T = EXPR;` items of the source files this unit extracts from, imported verbatim because an
+        extracted body refers to them and the template does not define them (e.g. a magic number was given a name)"""
+        done = set()
+        for name in self.extra_consts:
+            for file in list(self.cache.keys()):
+                body = self.nontest_text(file)
+                m = re.search(r'^[ \t]*(?:pub(?:\([^)]*\))?\s+)?const\s+%s\s*:\s*([^=;]+?)\s*=\s*([^;]+);' % re.escape(name), body, re.M)
+                if m and name not in done:
+                    done.add(name)
+                    self.emit('// imported mechanically from %s (referenced by an extracted body, not defined by the template)\n'
+                              'pub const %s: %s = %s;\n' % (file, name, m.group(1), m.group(2)))
+        self.extra_consts = []
 
     def do_bitflags(self, name, ty, allmask):
         if not hasattr(self, 'assumptions'):
@@ -764,10 +781,11 @@ def scan_assumptions(text):
     return sorted(set(found))
 
 
-def build(unit_name, repo, units_dir, out_dir, vacuity=False, stub_out=None):
+def build(unit_name, repo, units_dir, out_dir, vacuity=False, stub_out=None, extra_consts=None):
     u = Unit(unit_name, repo, units_dir)
     u.vacuity = vacuity
     u.stub_out = set(stub_out or [])
+    u.extra_consts = list(extra_consts or [])
     path = os.path.join(units_dir, unit_name + '.vrs')
     if not os.path.exists(path):
         raise ExtractError('no template ' + path)
